@@ -432,6 +432,8 @@ def build(s):
         x5c = chain(leaf)
         header = {"alg": k.get("sn_alg", "RS256"), "x5c": [base64.b64encode(c).decode() for c in x5c]}
         nonce = base64.b64encode(hashlib.sha256(signed_ad + signed_cdh).digest()).decode()
+        if "sn_nonce_fn" in k:
+            k = dict(k, sn_nonce=k["sn_nonce_fn"](nonce))
         payload = {"nonce": k.get("sn_nonce", nonce), "timestampMs": k.get("sn_timestamp", s.now * 1000 - 2000), "apkPackageName": "com.google.android.gms",
                    "apkDigestSha256": "x", "ctsProfileMatch": k.get("sn_cts", True), "apkCertificateDigestSha256": ["y"], "basicIntegrity": k.get("sn_basic", True)}
         h64, p64 = b64u(json.dumps(header).encode()), b64u(json.dumps(payload).encode())
